@@ -335,9 +335,19 @@ HAND = [
 ]
 
 
-def gen_programs(rng, tier, n):
-    """list of cases {"k": kind placeholder, "src": text, "feat": name, "size": int}"""
-    out = [{"src": s, "feat": "hand", "size": 0} for s in HAND]
+def gen_programs(rng, tier, n, corpus=None):
+    """list of cases {"k": kind placeholder, "src": text, "feat": name, "size": int};
+    the minimised past disagreements of corpus/<corpus>/*.json come first, then the hand-written seeds"""
+    out = []
+    if corpus:
+        for path in sorted(glob.glob(os.path.join(ROOT, "corpus", corpus, "*.json"))):
+            try:
+                c = json.load(open(path))
+            except Exception:
+                continue
+            if isinstance(c, dict) and "src" in c:
+                out.append({"src": c["src"], "feat": "corpus", "size": 0})
+    out += [{"src": s, "feat": "hand", "size": 0} for s in HAND]
     maxsize = 14 if tier == "quick" else 24
     while len(out) < n:
         feat = FEATS[rng.below(len(FEATS))]
